@@ -1306,6 +1306,12 @@ class Engine:
                 for e, p in zip(tgt.elts, parts):
                     self.assign_target(st, e, self.box(st, p), node)
                 return
+            if isinstance(vv, V) and isinstance(vv.t, Ty.List):
+                ln = z3.simplify(vv.c[0])
+                if z3.is_int_value(ln) and ln.as_long() == len(tgt.elts) and not any(isinstance(e, ast.Starred) for e in tgt.elts):
+                    for p_, e in enumerate(tgt.elts):
+                        self.assign_target(st, e, self.box(st, self.elem(vv, z3.IntVal(p_))), node)
+                    return
             raise Unsupported(f"unpack of {vv}")
         if isinstance(tgt, ast.Subscript):
             base = self.eval(st, tgt.value)
